@@ -14,7 +14,7 @@ def group_traces(*traces):
         for k in [*common_keys, *spec_keys.get(tr["type"], [])]:
             v = (tr.get(k, None) is None) if k == "facecolor" else tr.get(k, "")
             gr.append(str(v))
-        gr = "".join(gr)                       # NO separator between the values
+        gr = tuple(gr)                         # the tuple of the values (repo fix 4b91a64; before: "".join(gr), no separator)
         mesh_groups.setdefault(gr, []).append(tr)
     traces = []
     for group in mesh_groups.values():         # insertion order = order of first appearance
@@ -51,8 +51,13 @@ def specKeys (ty : String) : List String :=
 def keyPart (t : GTrace) (k : String) : String :=
   if k == "facecolor" then (if t.facecolorNone then "True" else "False") else (t.props.lookup k).getD ""
 
-/-- the group key string `"".join([type, str(v₁), str(v₂), …])` -/
-def groupKey (t : GTrace) : String :=
+/-- the group key `tuple([type, str(v₁), str(v₂), …])` -/
+def groupKey (t : GTrace) : List String :=
+  t.ty :: (commonKeys ++ specKeys t.ty).map (keyPart t)
+
+/-- the group key as it was BEFORE repo fix 4b91a64: `"".join([type, str(v₁), str(v₂), …])` — different value tuples can
+concatenate to the same string (`concat_key_collision_witness` in Props/C19); not used by the model any more -/
+def groupKeyConcat (t : GTrace) : String :=
   (commonKeys ++ specKeys t.ty).foldl (fun acc k => acc ++ keyPart t k) t.ty
 
 /-- `d.setdefault(k, []).append(t)` on an insertion-ordered dict -/
